@@ -739,6 +739,21 @@ func (c *FnCtx) assumeRequires() {
 		c.attachErr = fmt.Sprintf("contract lists %d parameters, function has %d", len(c.con.Params), len(c.fn.Params))
 		return
 	}
+	// the parameter types written in the contract must be the function's (closures are keyed by
+	// ordinal; a renumbering must not attach a contract to a different closure)
+	for i, pt := range c.con.PTypes {
+		if pt == "" || i >= len(c.fn.Params) {
+			continue
+		}
+		want, err := c.eng.tryResolveType(c.pkgTypes(), pt)
+		if err != nil {
+			continue
+		}
+		if !types.Identical(types.Unalias(want), types.Unalias(c.fn.Params[i].Type())) {
+			c.attachErr = fmt.Sprintf("parameter %s has type %s, contract says %s", c.con.Params[i], c.fn.Params[i].Type(), pt)
+			return
+		}
+	}
 	env := c.conEnv()
 	env.pkg = c.pkgTypes()
 	env.heap = c.entry
